@@ -12,7 +12,7 @@ MODS=$(python3 -c "
 import json
 idx = json.load(open('props_index.json'))
 print(' '.join(sorted({m for v in idx.values() for m in v['modules']})))")
-(cd lean && lake build $MODS model_driver)
+(cd lean && lake build $MODS PestTyped.All model_driver)
 python3 - <<'PY'
 import os, sys
 sys.path.insert(0, os.getcwd())
